@@ -122,6 +122,78 @@ CLAIMED.update({
             SEARCH_NOTE, 'DESIGN.md §4 C16'),
 })
 
+
+TEXT_NOTE = NOTE + ('the guards of the text formats are explicit decidable predicates in Props/TextDefs.lean (plain words and '
+                    'attribute values: non-empty, no blank/tab/newline/backslash; well-formed categories); tokens outside them '
+                    'form the malformed stream on which model and code must still agree.')
+CLAIMED.update({
+    'C08': (T_PROOF,
+            'Proved for every tree with well-formed categories of one feature system and plain token values: reading the printed '
+            'AUTO line yields exactly the image tree (same categories, shape, head flags, pos, words in escaped spelling, '
+            'grammar-guessed labels), printing it again reproduces the line, the conll last-column fragments concatenate to the '
+            'line, and the CCGbank category repair leaves well-formed categories alone. The printers and the cursor reader are '
+            'modelled to the character and diffed against auto_of / conll_of / read_auto (files on disk) on 1500 trees per run; '
+            'an independent AUTO reader is the oracle.',
+            TEXT_NOTE, 'DESIGN.md §4 C08'),
+    'C15': (T_PROOF,
+            'Proved: C&C XML round trip (tree, unary labels, grammar labels, the five token attributes), numbering by sentence; '
+            'Jigg XML self-containedness (unique ids document-wide, references resolve, leaf spans tile, spans cover children, '
+            'one root = ccg@root) for tokens without an own id entry (original statement proved false without that guard); '
+            'Japanese Jigg round trip (categories, shape, words); ccg2lambda\'s build_ccg_tree yields a tree isomorphic to the '
+            'derivation with the rule labels/symbols; normalize_token yields _-prefixed names free of . , ( ) ! - and is idempotent. '
+            'Documents are modelled as element trees and diffed against the real lxml output; XPath oracles on the real output.',
+            NOTE + 'lxml parsing/serialisation trusted; ccg2lambda semantic composition needs NLTK (absent): not covered.',
+            'DESIGN.md §4 C15'),
+    'C17': (T_PROOF,
+            'Proved: elementwise specification of the dictionary filter (exactly the unlisted categories of dictionary words become '
+            'the large negative value, everything else and the shape untouched), applicability iff every dictionary category is in '
+            'the list; and, by kernel evaluation of tables re-emitted from /repo on every run, every one of the 3469 shipped '
+            'category strings reads to a well-formed category and every category of cat_dict.en belongs to targets.en. '
+            'Model diffed against apply_category_filters on real numpy arrays; elementwise oracle; shipped files loaded with the '
+            'real parser.',
+            NOTE + 'the jsonnet-subset reader of harness/tables.py is trusted for extracting the tables.',
+            'DESIGN.md §4 C17'),
+    'C18': (T_PROOF,
+            'In the model every renderer is a function of the parse results; the theorems state it for any sequence of formats '
+            '(any_sequence, repeatable). The real printers are tied to these functions by the correspondence (C07/C08/C15/C20) '
+            'and observed directly: deep snapshots of every reachable Tree/Token before and after each real to_string call, all '
+            'ordered format pairs / random sequences on the same objects vs fresh deep copies.',
+            NOTE + 'Python aliasing is runtime behaviour only the snapshot oracle can exhibit.',
+            'DESIGN.md §4 C18'),
+    'C20': (T_PROOF,
+            'Proved: PTB round trip (categories, shape, escaped words, grammar labels and head directions) for words whose escaped '
+            'spelling neither starts with ( nor ends with ) [known finding for the others]; every proper field-prefix of a printed '
+            'PTB line is rejected; Japanese bank round trip (categories, shape, words, rule symbols) for non-empty attribute values '
+            '(original statement proved false for an empty inflection value); the bank\'s _suffix / {I1} annotations are '
+            'irrelevant. Printers and both readers modelled to the character and diffed against the real code; independent '
+            'S-expression / brace readers as oracle.',
+            TEXT_NOTE, 'DESIGN.md §4 C20'),
+})
+
+
+CLAIMED.update({
+    'C07': (T_PROOF,
+            'One theorem per format family that the real bytes are tied to: auto/conll (C08 round trip, fragments), ptb/ja (C20), '
+            'xml/jigg_xml (C15), auto_extended (independent Lean decoder reads every printed line back to words/shape/categories/'
+            'labels/head flags/attributes), conll heads (= the head assignment implied by the head flags: one root, every other '
+            'word attached inside its parent span), json (shape/categories/labels/attributes), deriv (rule-line extents = leaf '
+            'column intervals, post-order), record numbering by sentence for every line format and prolog. All eleven printers '
+            'but html are modelled to the character / element and diffed against the real to_string; eleven independent Python '
+            'decoders compare each real output with the derivation in the format\'s own spelling.',
+            TEXT_NOTE + ' html has no Lean model and the Prolog term reader lives in the oracle (partial, named in the evidence); '
+            'float formatting of the header scores is a parameter.',
+            'DESIGN.md §4 C07'),
+    'C19': (T_PROOF,
+            'Proved: label closure of both grammars (C03/C04) is contained in the printers\' label tables, which are re-emitted '
+            'from the imported modules on every run and checked equal to the model tables by kernel evaluation; every line / XML / '
+            'json format is total on trees whose tokens have a word, the Prolog formats on trees whose labels are in the tables '
+            '(conj nodes have functor categories by C03.en_sound), the failure placeholder renders everywhere, and a batch '
+            'renders iff each of its trees does. The real to_string is run on one derivation per label the real rule functions '
+            'return, on the placeholder and on mixed batches, in every executable offered format.',
+            NOTE + 'ccg2lambda / jigg_xml_ccg2lambda formats need NLTK (absent): offered by the CLI, not executable here.',
+            'DESIGN.md §4 C19'),
+})
+
 REASON_PENDING = 'check not yet built in this session (model/theorems planned in DESIGN.md §4); not claimed until it runs'
 
 
